@@ -219,7 +219,6 @@ def run(prog: Program, ctx: Ctx) -> None:  # noqa: PLR0912,PLR0915
         (f"{D}._returns_are_compatible", "p1.returns"): "same",
         (f"{D}._attribute_incompatibilities", "p0.value"): "attribute arm of the dispatch (neither side an alias)",
         (f"{D}._attribute_incompatibilities", "p1.value"): "same",
-        (f"{D}._member_incompatibilities", "v1.is_module"): "short-circuited by `not old_member.is_alias and ...`",
     }
     PARENT = "the reported alias sits in a loaded tree: its parent is the object whose members were walked (a non-alias arm of the dispatch, or the caller's resolved root)"
     for helper, attr in (("_filepath", "filepath"), ("_relative_filepath", "relative_filepath"), ("_relative_package_filepath", "relative_package_filepath"),
